@@ -81,3 +81,4 @@ json.dump(meta, open(f'{out}/meta.json', 'w'), indent=1)
 # restore evidence written against the mutated tree
 sh('git -C /verif checkout -- evidence 2>/dev/null')
 sh('/verif/build/extract -out /verif/lean/CoreBGP/Gen')
+sh("cd /verif/harness && go build -tags verif -o /verif/build/live ./cmd/live")
